@@ -178,12 +178,25 @@ func (w *world) checker(c sideCfg) hs.CredentialChecker {
 		return cc
 	}
 	var cc hs.CredentialChecker
-	if c.verify {
-		a := w.accts[c.acct].keys
-		cc = secureservice.VerifNewPeerSignVerifier(c.ver, c.compat, c.client,
-			&accountdata.AccountKeys{PeerKey: a.PeerKey, SignKey: a.SignKey, PeerId: c.lp})
-	} else {
-		cc = secureservice.VerifNewNoVerifyChecker(c.ver, c.compat, c.client)
+	func() {
+		// a constructor that cannot digest a configuration (e.g. an empty accepted list) must not take
+		// the harness down: such a side is skipped (the public path replaces an empty list by the default)
+		defer func() {
+			if p := recover(); p != nil {
+				cc = nil
+				w.r.Count("checker.construct-panic")
+			}
+		}()
+		if c.verify {
+			a := w.accts[c.acct].keys
+			cc = secureservice.VerifNewPeerSignVerifier(c.ver, c.compat, c.client,
+				&accountdata.AccountKeys{PeerKey: a.PeerKey, SignKey: a.SignKey, PeerId: c.lp})
+		} else {
+			cc = secureservice.VerifNewNoVerifyChecker(c.ver, c.compat, c.client)
+		}
+	}()
+	if cc == nil {
+		return nil
 	}
 	w.checkers[key] = cc
 	w.r.Count("checker.new")
@@ -226,6 +239,7 @@ type sideRun struct {
 	res    hs.Result
 	err    error
 	pan    any
+	skip   bool // the side could not be built (constructor panicked): not judged
 	fed    []byte
 	end    string // eof | stall
 	// public path (secureservice through app.App): context attachments
@@ -237,6 +251,12 @@ func (w *world) start(cfg sideCfg, chunky bool) *sideRun {
 	s := &sideRun{cfg: cfg, c: newConn(uint64(w.r.Seed)*1000003+w.connSeed, chunky), done: make(chan struct{}), end: "stall"}
 	s.ctx, s.cancel = context.WithCancel(context.Background())
 	cc := w.checker(cfg)
+	if cc == nil && !cfg.service {
+		s.skip = true
+		s.err = errors.New("harness: checker not constructible")
+		close(s.done)
+		return s
+	}
 	if cfg.verify {
 		// Ed25519 is deterministic: this is the very signature the real side will present
 		w.sign(cfg.acct, cfg.lp+cfg.rp)
@@ -647,6 +667,9 @@ func (w *world) sideLegit(cfg sideCfg, stream []byte) legit {
 // judge applies the direct oracle to one finished side and the model correspondence.
 func (w *world) judge(stream string, s *sideRun, hung bool) (obs string) {
 	r := w.r
+	if s.skip {
+		return "skipped"
+	}
 	ops := []string{}
 	if hung {
 		r.Violate("C14", "", stream+".hang", "handshake neither returned nor waited on input within the guard", []string{"sess " + s.cfg.wire(w) + " stream=" + hexOrDash(s.fed)})
@@ -806,7 +829,7 @@ func (w *world) honestCred(c sideCfg) credSpec {
 
 func (w *world) randCompat() []uint32 {
 	r := w.r
-	pool := []uint32{0, 1, 2, 12, 13, 14}
+	pool := []uint32{0, 1, 2, 9, 12, 13, 14}
 	switch r.Intn(8) {
 	case 0:
 		return nil
@@ -823,7 +846,7 @@ func (w *world) randCompat() []uint32 {
 }
 
 func (w *world) randVer() uint32 {
-	pool := []uint32{0, 1, 2, 12, 13, 14, 15}
+	pool := []uint32{0, 1, 2, 8, 9, 10, 11, 12, 13, 14, 15}
 	return pool[w.r.Intn(len(pool))]
 }
 
@@ -1088,6 +1111,16 @@ func (w *world) runPair(stream string, oc, ic sideCfg, m mutation, cancelAt int,
 	po := &pairOutcome{}
 	chunky := w.r.Chance(80)
 	po.out, po.in = w.start(oc, chunky), w.start(ic, chunky)
+	if po.out.skip || po.in.skip {
+		po.out.cancel()
+		po.in.cancel()
+		po.out.c.Close()
+		po.in.c.Close()
+		<-po.out.done
+		<-po.in.done
+		po.hung = true // callers return early; nothing is judged
+		return po
+	}
 	sides := [2]*sideRun{po.out, po.in}
 	pending := [2][]byte{}
 	frameNo := 0
@@ -1686,6 +1719,40 @@ func (w *world) poolSessions(single bool) {
 	}
 }
 
+// gapMatrix: the accepted list is a SET. Non-contiguous lists, probed on either side with every
+// member, every value inside a gap, the value just below the minimum and just above the maximum.
+func (w *world) gapMatrix() {
+	r := w.r
+	for _, list := range [][]uint32{{9, 12, 13}, {1, 13}, {0, 2, 14}, {13, 9}} {
+		lo, hi := list[0], list[0]
+		for _, v := range list {
+			lo, hi = min(lo, v), max(hi, v)
+		}
+		var probes []uint32
+		if lo > 0 {
+			probes = append(probes, lo-1)
+		}
+		for v := lo; v <= hi+1; v++ {
+			probes = append(probes, v)
+		}
+		for _, v := range probes {
+			for _, verify := range []bool{false, true} {
+				for _, probeIsOut := range []bool{true, false} {
+					// the probing side speaks v; the other side accepts exactly `list`; everything else is compatible
+					oc := sideCfg{role: "out", verify: verify, acct: 0, lp: "pA", rp: "pB", ver: v, compat: []uint32{list[0]}, client: "v1"}
+					ic := sideCfg{role: "in", verify: verify, acct: 1, lp: "pB", rp: "pA", ver: list[0], compat: list, client: "cli/2.0"}
+					if !probeIsOut {
+						oc = sideCfg{role: "out", verify: verify, acct: 0, lp: "pA", rp: "pB", ver: list[0], compat: list, client: "v1"}
+						ic = sideCfg{role: "in", verify: verify, acct: 1, lp: "pB", rp: "pA", ver: v, compat: []uint32{list[0]}, client: "cli/2.0"}
+					}
+					w.honestPair(oc, ic)
+					r.Count("gap-matrix." + map[bool]string{true: "member", false: "non-member"}[contains(list, v)])
+				}
+			}
+		}
+	}
+}
+
 // instanceHistory: ONE verifying node serves several genuine handshakes from distinct accounts and
 // transport peers, one after the other; after each of them every earlier connection is re-examined
 // (attached identity unchanged), and frames recorded on an earlier, genuinely accepted connection are
@@ -1828,6 +1895,7 @@ func Run(r *corr.Run) {
 			}
 		}
 	}
+	w.gapMatrix()
 	w.replays()
 	w.poolSessions(true)
 	w.instanceHistory(true)
